@@ -24,11 +24,13 @@ STATES = {
     'established-later': [('TICK', 0), ('CONN_OK', 0), ('RX', 0, 'OPEN_OK'), ('RX', 0, 'KA'), ('WAIT', 7.0)],
     # the peer announced every capability the agent knows (enhanced route refresh, graceful restart, ADD-PATH, LLGR, extended next
     # hop): code that is switched on by the peer's capability set runs only here
+    # the operator runs the agent with debug logging: whatever sits behind LOG.isEnabledFor(DEBUG) / builds LOG.debug arguments runs
+    'established-debug-log': [('TICK', 0), ('CONN_OK', 0), ('RX', 0, 'OPEN_OK'), ('RX', 0, 'KA')],
     'established-rich': [('TICK', 0), ('CONN_OK', 0), ('RX', 0, 'OPEN_RICH'), ('RX', 0, 'KA')],
     'established-2nd-session': [('TICK', 0), ('CONN_OK', 0), ('RX', 0, 'OPEN_OK'), ('RX', 0, 'KA'), ('PEER_CLOSE', 0), ('TICK', 0),
                                 ('CONN_OK', 0), ('RX', 0, 'OPEN_OK'), ('RX', 0, 'KA')],
 }
-CFG = {'established-hold0': {'hold': 0}}
+CFG = {'established-hold0': {'hold': 0}, 'established-debug-log': {'debug_log': True}}
 WRAP_TYPES = (2, 8, 14, 15, 16, 22, 23, 29, 32, 40)
 
 
@@ -224,6 +226,12 @@ def run(tier, seed):
     for st_ in (0, 1, 2, 3, 255):
         items.append(('route-refresh-subtype-%d' % st_, wire.route_refresh(1, 1, st_)))
         items.append(('route-refresh-128-subtype-%d' % st_, wire.route_refresh(1, 1, st_, 128)))
+    # well-framed messages of types nobody assigned (and KEEPALIVEs with a body): rejected by the header check, in every state
+    for ty in (0, 4, 6, 7, 127, 129, 255):
+        for body in (b'', b'\x00', bytes(range(23)), bytes((i * 13) & 255 for i in range(4096 - 19))):
+            if ty == 4 and not body:
+                continue
+            items.append(('type%d-len%d' % (ty, 19 + len(body)), wire.frame(ty, body)))
     tasks = []
     for state in STATES:
         sub = items if state in ('established', 'opensent', 'established-hold0') or tier == 'thorough' else items[::4]
